@@ -8,6 +8,7 @@
 #include "vpolicy.h"
 
 #include <eventpp/eventqueue.h>
+#include <eventpp/hetereventqueue.h>
 #include <eventpp/utilities/orderedqueuelist.h>
 
 #include <thread>
@@ -62,7 +63,7 @@ struct MtSink : CallbackSink
 	void onCall(int cbid, const ArgPack & args, MutInts &) override {
 		const long long eid = args.fp[args.n - 1];
 		if(eid < 0 || eid >= MAXEV) { violation("dispatch:payload-not-intact", "listener received payload fingerprint " + num(eid)); return; }
-		if(args.fp[0] != 1 + (eid % 3) || cbid != args.fp[0]) { violation("dispatch:wrong-listener-or-key", "listener cb" + num(cbid) + " received key " + num(args.fp[0]) + " for event " + num(eid)); return; }
+		if(cbid != 1 + (eid % 3) || (args.n == 2 && args.fp[0] != cbid)) { violation("dispatch:wrong-listener-or-key", "listener cb" + num(cbid) + " received " + args.str() + " for event " + num(eid)); return; }
 		int expect = ST_ENQ;
 		if(! S->state[eid].compare_exchange_strong(expect, ST_DISPATCHED, std::memory_order_relaxed)) {
 			violation(expect == ST_NONE ? "dispatch:event-never-enqueued" : (expect == ST_DISPATCHED ? "dispatch:event-dispatched-twice" : "dispatch:event-dispatched-after-taken"),
@@ -85,6 +86,27 @@ struct Scenario
 	int consumerOps[8][6]; // weights per consumer: process, processOne, processIf, processUntil, takeEvent, peekEvent(+clear)
 };
 
+// what a queue type offers
+template <typename Q> struct QOps
+{
+	enum { heter = 0 };
+	static void listen(Q & q) { for(int k = 1; k <= 3; ++k) q.appendListener(k, TCallback(k)); }
+	static void enqueue(Q & q, int key, int eid, bool rvalue) { if(rvalue) q.enqueue(key, TPayload(eid)); else { TPayload pl(eid); q.enqueue(key, pl); } }
+};
+struct HL0 { TCallback cb; explicit HL0(int k) : cb(k) {} void operator() (int a, const TPayload & p) const { cb(a, p); } };
+struct HL1 { TCallback cb; explicit HL1(int k) : cb(k) {} void operator() (const TPayload & p) const { cb(p); } };
+struct PolMonHeter { typedef MonThreading Threading; };
+typedef eventpp::HeterEventQueue<int, eventpp::HeterTuple<void(int, const TPayload &), void(const TPayload &)>, PolMonHeter> HQ;
+template <> struct QOps<HQ>
+{
+	enum { heter = 1 };
+	static void listen(HQ & q) { for(int k = 1; k <= 3; ++k) { q.appendListener(k, HL0(k)); q.appendListener(k, HL1(k)); } }
+	static void enqueue(HQ & q, int key, int eid, bool rvalue) {
+		if(eid & 1) { if(rvalue) q.enqueue(key, TPayload(eid)); else { TPayload pl(eid); q.enqueue(key, pl); } }
+		else { if(rvalue) q.enqueue(key, key, TPayload(eid)); else { TPayload pl(eid); q.enqueue(key, key, pl); } }
+	}
+};
+
 template <typename Q>
 struct Runner
 {
@@ -102,8 +124,7 @@ struct Runner
 				const int eid = p * 1000 + i;
 				S->state[eid].store(ST_ENQ, std::memory_order_relaxed);
 				S->enqStart[eid].store(tick(), std::memory_order_relaxed);
-				if(tls().rng.chance(1, 2)) q.enqueue(keyOf(eid), TPayload(eid));
-				else { TPayload pl(eid); q.enqueue(keyOf(eid), pl); }
+				QOps<Q>::enqueue(q, keyOf(eid), eid, tls().rng.chance(1, 2));
 				S->enqRet[eid].store(tick(), std::memory_order_relaxed);
 				S->progress.fetch_add(1, std::memory_order_relaxed);
 			}
@@ -117,7 +138,8 @@ struct Runner
 	struct PredSel { bool want; bool operator() (int, const TPayload & p) const { perturb("pred.body"); return ((p.id() / 3) % 2 == 0) == want; } };
 	struct PredUntil { int n; mutable int seen; bool operator() (int, const TPayload &) const { perturb("pred.body"); return ++seen > n; } };
 
-	void taken(int tid, const typename Q::QueuedEvent & e) {
+	template <typename E>
+	void taken(int tid, const E & e) {
 		const long long eid = fpOf(std::get<1>(e.arguments));
 		if(eid < 0 || eid >= MAXEV) { violation("takeEvent:payload-not-intact", "takeEvent delivered payload fingerprint " + num(eid)); return; }
 		if(e.event != keyOf((int)eid) || std::get<0>(e.arguments) != keyOf((int)eid)) { violation("takeEvent:wrong-key", "takeEvent delivered event " + num(eid) + " with key " + num(e.event)); return; }
@@ -129,6 +151,58 @@ struct Runner
 		S->consumer[eid].store(tid, std::memory_order_relaxed);
 		S->order[tid % MAXTHREADS].push_back((int)eid);
 		S->progress.fetch_add(1, std::memory_order_relaxed);
+	}
+
+	struct PredH1 { bool want; bool sel; bool operator() (const TPayload & p) const { perturb("pred.body"); return ! sel || ((p.id() / 3) % 2 == 0) == want; } };
+	template <typename QQ = Q>
+	typename std::enable_if<QOps<QQ>::heter != 0>::type consumeOp(int, int op, Rng & rng) {
+		switch(op) {
+		case 0: q.process(); break;
+		case 1: q.processOne(); break;
+		case 2: case 3:
+			if(rng.chance(1, 2)) { if(sc.selective) { PredSel p; p.want = rng.chance(1, 2); q.processIf(p); } else q.processIf(PredAll()); }
+			else { PredH1 p; p.sel = sc.selective; p.want = rng.chance(1, 2); q.processIf(p); }
+			break;
+		case 4: q.processOne(); break;
+		default:
+			if(sc.allowClear && rng.chance(1, 6)) { q.clearEvents(); cleared.fetch_add(1, std::memory_order_relaxed); }
+			else q.emptyQueue();
+			break;
+		}
+	}
+	template <typename QQ = Q>
+	typename std::enable_if<QOps<QQ>::heter == 0>::type consumeOp(int tid, int op, Rng & rng) {
+		switch(op) {
+		case 0: q.process(); break;
+		case 1: q.processOne(); break;
+		case 2: if(sc.selective) { PredSel p; p.want = rng.chance(1, 2); q.processIf(p); } else q.processIf(PredAll()); break;
+		case 3: { PredUntil p; p.n = (int)rng.below(4); p.seen = 0; q.processUntil(p); break; }
+		case 4: {
+			typename Q::QueuedEvent e;
+			const uint64_t t0 = tick();
+			if(q.takeEvent(&e)) {
+				taken(tid, e);
+				const long long eid = fpOf(std::get<1>(e.arguments));
+				if(eid >= 0 && eid < MAXEV) S->doneAt[eid].store(t0, std::memory_order_relaxed); // the call had begun: earliest completion the statement allows
+			}
+			break; }
+		default:
+			if(sc.allowClear && rng.chance(1, 6)) {
+				Obs o; o.kind = 2; o.tc = tick();
+				q.clearEvents();
+				o.tr = tick();
+				gClears[tid % MAXTHREADS].push_back(o);
+				cleared.fetch_add(1, std::memory_order_relaxed);
+			}
+			else {
+				typename Q::QueuedEvent e;
+				if(q.peekEvent(&e)) {
+					const long long eid = fpOf(std::get<1>(e.arguments));
+					if(eid < 0 || eid >= MAXEV || e.event != keyOf((int)eid)) violation("peekEvent:content-not-intact", "peekEvent delivered payload fingerprint " + num(eid) + " key " + num(e.event));
+				}
+			}
+			break;
+		}
 	}
 
 	void consumer(int tid, int c) {
@@ -143,37 +217,7 @@ struct Runner
 				if(S->producersLeft.load(std::memory_order_seq_cst) == 0 && q.emptyQueue()) break;
 				int r = (int)rng.below((uint32_t)total), op = 0;
 				while(r >= w[op]) { r -= w[op]; ++op; }
-				switch(op) {
-				case 0: q.process(); break;
-				case 1: q.processOne(); break;
-				case 2: if(sc.selective) { PredSel p; p.want = rng.chance(1, 2); q.processIf(p); } else q.processIf(PredAll()); break;
-				case 3: { PredUntil p; p.n = (int)rng.below(4); p.seen = 0; q.processUntil(p); break; }
-				case 4: {
-					typename Q::QueuedEvent e;
-					const uint64_t t0 = tick();
-					if(q.takeEvent(&e)) {
-						taken(tid, e);
-						const long long eid = fpOf(std::get<1>(e.arguments));
-						if(eid >= 0 && eid < MAXEV) S->doneAt[eid].store(t0, std::memory_order_relaxed); // the call had begun: earliest completion the statement allows
-					}
-					break; }
-				default:
-					if(sc.allowClear && rng.chance(1, 6)) {
-						Obs o; o.kind = 2; o.tc = tick();
-						q.clearEvents();
-						o.tr = tick();
-						gClears[tid % MAXTHREADS].push_back(o);
-						cleared.fetch_add(1, std::memory_order_relaxed);
-					}
-					else {
-						typename Q::QueuedEvent e;
-						if(q.peekEvent(&e)) {
-							const long long eid = fpOf(std::get<1>(e.arguments));
-							if(eid < 0 || eid >= MAXEV || e.event != keyOf((int)eid)) violation("peekEvent:content-not-intact", "peekEvent delivered payload fingerprint " + num(eid) + " key " + num(e.event));
-						}
-					}
-					break;
-				}
+				consumeOp(tid, op, rng);
 				S->progress.fetch_add(1, std::memory_order_relaxed);
 			}
 		}
@@ -264,7 +308,7 @@ static void runScenario(uint64_t caseNo, Rng & rng, const char * cfgName, bool o
 	{
 		Runner<Q> * R = new Runner<Q>();
 		R->sc = sc; R->caseSeed = ctx().curSeed; R->cleared = 0;
-		for(int k = 1; k <= 3; ++k) R->q.appendListener(k, TCallback(k));
+		QOps<Q>::listen(R->q);
 		S->producersLeft = sc.producers;
 		std::vector<std::thread> th;
 		int tid = 1;
@@ -323,7 +367,9 @@ static void runScenario(uint64_t caseNo, Rng & rng, const char * cfgName, bool o
 
 		// FIFO: one consumer thread, no selectively declining predicate => per producer in enqueue order
 		bool ordered = std::is_same<Q, eventpp::EventQueue<int, void(int, const TPayload &), PolMonOrdered> >::value;
-		if(sc.consumers == 1 && ! sc.selective && ! ordered) {
+		// a heterogeneous processIf only looks at the prototypes its predicate accepts: events of other prototypes queued ahead stay, by design
+		const bool heterSelective = QOps<Q>::heter != 0 && (sc.consumerOps[0][2] + sc.consumerOps[0][3]) > 0;
+		if(sc.consumers == 1 && ! sc.selective && ! ordered && ! heterSelective) {
 			const int ctid = sc.producers + 1;
 			std::vector<int> last((size_t)sc.producers, -1);
 			const std::vector<int> & o = S->order[ctid];
@@ -403,8 +449,9 @@ static void runCase(uint64_t caseNo, Rng & rng)
 {
 	const bool obs = ctx().mode == "c11";
 	long long only = ctx().optInt("cfg", -1);
-	const int cfg = only >= 0 ? (int)only : (int)(caseNo % 3);
-	if(cfg == 0) runScenario<Q0>(caseNo, rng, "EventQueue MonMutex(std::mutex)", obs);
+	const int cfg = only >= 0 ? (int)only : (int)(caseNo % 4);
+	if(cfg == 3 && ! obs) runScenario<HQ>(caseNo, rng, "HeterEventQueue MonMutex (two prototypes)", false);
+	else if(cfg == 0 || cfg == 3) runScenario<Q0>(caseNo, rng, "EventQueue MonMutex(std::mutex)", obs);
 	else if(cfg == 1) runScenario<Q1>(caseNo, rng, "EventQueue MonMutex(SpinLock)", obs);
 	else runScenario<Q2>(caseNo, rng, "EventQueue OrderedQueueList MonMutex", obs);
 }
